@@ -150,7 +150,7 @@ export function genProg(rng) {
         // TypeScript only accepts an overriding member whose type is assignable to the inherited one: keep disjoint keys
         const baseShape = ext.length ? shapeOf([A("prog"), decls, []], ext[0], 0) : null;
         const baseKeys = new Set(baseShape ? baseShape.props.map((x) => x[0]) : []);
-        decls.push([A("iface"), name, params, ext, members.filter((m) => !baseKeys.has(m[0]) || m[0] === "next" || m[0] === "kids")]);
+        decls.push([A("iface"), name, params, ext, members.filter((m) => !baseKeys.has(m[0]))]);
       } else decls.push([A("alias"), name, params, [A("obj"), members, A("none")]]);
       if (!generic) objNames.push(name);
       names.push(self);
